@@ -6,8 +6,11 @@ from rules import macro_mir as MM
 ASSUMPTIONS = ["that decl() yields the same text for every argument is a run-time string fact and is NOT decided beyond the template shape"]
 
 
+from rules import field_rules as FR
+
+
 def run(ctx):
-    out = [T.generics_rule(ctx.syn, "C07", crate=ctx.mir("default")["ts_rs_macros"]), T.decl_rule(ctx.syn, "C07", crate=ctx.mir("default")["ts_rs_macros"]), T.generated_state_rule(ctx.syn, "C07", "C07.R4"), F.intersection_operand_rule(ctx.mir("default")["ts_rs_macros"], "C07", "C07.R6"), T.passthrough_fields_rule(ctx.syn, "C07"), T.operand_scanner_rule(ctx.syn, "C07", rule="C07.R8")]
+    out = [T.generics_rule(ctx.syn, "C07", crate=ctx.mir("default")["ts_rs_macros"]), T.decl_rule(ctx.syn, "C07", crate=ctx.mir("default")["ts_rs_macros"]), T.generated_state_rule(ctx.syn, "C07", "C07.R4"), F.intersection_operand_rule(ctx.mir("default")["ts_rs_macros"], "C07", "C07.R6"), FR.passthrough_fields_rule(ctx.mir("default")["ts_rs_macros"], "C07"), T.operand_scanner_rule(ctx.syn, "C07", rule="C07.R8")]
     for fs in ctx.featuresets():
         r = MM.import_shape_rule(ctx.mir(fs)["ts_rs"], "C07", rule="C07.R3")
         if fs == "default":
